@@ -115,30 +115,30 @@ Fixpoint collp (cls : bool) (q : cst) (s : list nat) : list nat :=
    One pass; the states are: outside (with: nothing to repeat here), after a backslash, inside a bracket expression, inside
    "[:" / "[." / "[=" up to its ":]" / ".]" / "=]", inside an interval up to its "\}". ---- *)
 Definition c_lbrace := 123.  Definition c_rbrace := 125.  Definition c_plus := 43.  Definition c_qm := 63.
-Inductive pst := PT (start : bool) | PE (start : bool) | PB (may_caret may_rb : bool) | PK (d : nat) (prev : bool) | PI (prev_bs : bool).
+Inductive pst := PT (start anchored : bool) | PE (start : bool) | PB (may_caret may_rb : bool) | PK (d : nat) (prev : bool) | PI (prev_bs : bool).
 Fixpoint pre (gb pq nl : bool) (q : pst) (s : list nat) : list nat :=
   match s with
   | [] => match q with PE _ => [c_bs] | _ => [] end
   | c :: s' =>
     match q with
-    | PT st =>
+    | PT st an =>
         if c =? c_bs then pre gb pq nl (PE st) s'
         else if c =? c_lb then c :: pre gb pq nl (PB true true) s'
-        else if nl && (c =? c_nl) then c :: pre gb pq nl (PT true) s'
-        else if st && (c =? c_caret) then c :: pre gb pq nl (PT true) s'
-        else c :: pre gb pq nl (PT false) s'
+        else if nl && (c =? c_nl) then c :: pre gb pq nl (PT true false) s'
+        else if st && negb an && (c =? c_caret) then c :: pre gb pq nl (PT true true) s'   (* only the first "^" there is the anchor *)
+        else c :: pre gb pq nl (PT false false) s'
     | PE st =>
-        if (c =? c_lp) || (c =? c_bar) then c_bs :: c :: pre gb pq nl (PT true) s'
+        if (c =? c_lp) || (c =? c_bar) then c_bs :: c :: pre gb pq nl (PT true false) s'
         else if c =? c_lbrace then
-          if st then (if gb then [c] else [c_bs; c]) ++ pre gb pq nl (PT false) s'
+          if st then (if gb then [c] else [c_bs; c]) ++ pre gb pq nl (PT false false) s'
           else c_bs :: c :: pre gb pq nl (PI false) s'
-        else if pq && negb st && (c =? c_plus) then [c_bs; c_lbrace; 49; 44; c_bs; c_rbrace] ++ pre gb pq nl (PT false) s'
-        else if pq && negb st && (c =? c_qm) then [c_bs; c_lbrace; 48; 44; 49; c_bs; c_rbrace] ++ pre gb pq nl (PT false) s'
-        else c_bs :: c :: pre gb pq nl (PT false) s'
+        else if pq && negb st && (c =? c_plus) then [c_bs; c_lbrace; 49; 44; c_bs; c_rbrace] ++ pre gb pq nl (PT false false) s'
+        else if pq && negb st && (c =? c_qm) then [c_bs; c_lbrace; 48; 44; 49; c_bs; c_rbrace] ++ pre gb pq nl (PT false false) s'
+        else c_bs :: c :: pre gb pq nl (PT false false) s'
     | PB mc mr =>
         if mc && (c =? c_caret) then c :: pre gb pq nl (PB false true) s'
         else if mr && (c =? c_rb) then c :: pre gb pq nl (PB false false) s'
-        else if c =? c_rb then c :: pre gb pq nl (PT false) s'
+        else if c =? c_rb then c :: pre gb pq nl (PT false false) s'
         else if c =? c_lb then
           match s' with
           | d :: s'' => if (d =? c_colon) || (d =? c_dot) || (d =? c_eq) then c :: d :: pre gb pq nl (PK d false) s''
@@ -147,11 +147,11 @@ Fixpoint pre (gb pq nl : bool) (q : pst) (s : list nat) : list nat :=
           end
         else c :: pre gb pq nl (PB false false) s'
     | PK d prev => if prev && (c =? c_rb) then c :: pre gb pq nl (PB false false) s' else c :: pre gb pq nl (PK d (c =? d)) s'
-    | PI prev => if prev && (c =? c_rbrace) then c :: pre gb pq nl (PT false) s' else c :: pre gb pq nl (PI (c =? c_bs)) s'
+    | PI prev => if prev && (c =? c_rbrace) then c :: pre gb pq nl (PT false false) s' else c :: pre gb pq nl (PI (c =? c_bs)) s'
     end
   end.
 Definition spell (gb pq nl : bool) (pattern : list nat) : list nat :=
-  if gb || pq then pre gb pq nl (PT true) pattern else pattern.
+  if gb || pq then pre gb pq nl (PT true false) pattern else pattern.
 
 (* ext: posix-extended; cls: the syntax has character classes (all but emacs); nl: a newline is alternation (grep);
    gb: grep's brace; pq: posix-basic's "\+" and "\?" *)
